@@ -398,6 +398,12 @@ func nlRun(c nlCase, r *runCtx) {
 			if st.cClosed || av == 0 {
 				continue
 			}
+			if st.cs.session.IsClosed() {
+				// the session ended (listener closed and every connection of the session closed on the server side): its shared
+				// memory is gone and with it what the client had not read yet - reads fail from here on, nothing is expected of them
+				r.Label("read-after-session-end-skipped")
+				continue
+			}
 			buf := make([]byte, op.N)
 			st.cs.SetReadDeadline(time.Now().Add(e2Stall))
 			k, err := st.cs.Read(buf)
